@@ -96,6 +96,45 @@ pub fn run(rng: &mut Rng, n: usize, rep: &mut Report) {
                 rep.fail(format!("negative shares; hist {:?}", hist));
             }
         }
+        // ---- directed: residues right around the 0.0001-unit tolerance (80 % .. 140 % of it) on the side that a closure
+        //      abandons: close_balance (either side), withdraw_all (debt residue), repay_all (deposit residue)
+        for _ in 0..6 {
+            let thr: i128 = fixed::types::I80F48::from_num(0.0001).to_bits();
+            let target = thr * (80 + rng.below(61) as i128) / 100;
+            let which = rng.below(3);
+            let mut x = Bal { active: 1, tag: bank.asset_tag, a: 0, l: 0, emis: 0, last_update: now as u64 };
+            let sh = |v: i128, sv: i128| -> i128 { ((num_bigint::BigInt::from(v) << 48u32) / num_bigint::BigInt::from(sv.max(1))).to_string().parse::<i128>().unwrap_or(0) };
+            let op = match which {
+                0 => {
+                    if rng.chance(1, 2) { x.a = sh(target, bank.asv) } else { x.l = sh(target, bank.lsv) }
+                    "w.close"
+                }
+                1 => {
+                    x.a = (1 + rng.below(1000) as i128) * ONE;
+                    x.l = sh(target, bank.lsv);
+                    "w.wdall"
+                }
+                _ => {
+                    x.l = (1 + rng.below(1000) as i128) * ONE;
+                    x.a = sh(target, bank.asv);
+                    "w.repall"
+                }
+            };
+            let mut b2 = bank.clone();
+            b2.sa += x.a;
+            b2.sl += x.l;
+            let (_, post) = run_wrapper_op(op, &b2, &x, now, 0);
+            rep.bump("threshold_window_cases");
+            if post.is_some() {
+                rep.bump("threshold_window_closed");
+                let va = (num_bigint::BigInt::from(x.a) * num_bigint::BigInt::from(b2.asv)) >> 48u32;
+                let vl = (num_bigint::BigInt::from(x.l) * num_bigint::BigInt::from(b2.lsv)) >> 48u32;
+                let (ra, rl) = match op { "w.close" => (va, vl), "w.wdall" => (num_bigint::BigInt::from(0), vl), _ => (va, num_bigint::BigInt::from(0)) };
+                if ra >= num_bigint::BigInt::from(thr) || rl >= num_bigint::BigInt::from(thr) {
+                    rep.fail(format!("{} abandoned more than dust: residue worth {} / {} bits (0.0001 unit = {} bits); bank [{}] position [{}]", op, ra, rl, thr, b2.line(), x.line()));
+                }
+            }
+        }
         rep.sample(format!("{:?}", hist));
         rep.bump("histories");
     }
